@@ -39,8 +39,8 @@ pub fn main(rest: &[String]) -> i32 {
         }
         for m in list.iter() {
             nmoves += 1;
-            let text = std::panic::catch_unwind(|| san::format_move(&g, *m)).unwrap_or_else(|_| "<panic>".to_string());
-            let back = match std::panic::catch_unwind(|| san::parse_move(&g, &text)) {
+            let text = crate::unwind_safe(|| san::format_move(&g, *m)).unwrap_or_else(|_| "<panic>".to_string());
+            let back = match crate::unwind_safe(|| san::parse_move(&g, &text)) {
                 Err(_) => -2,
                 Ok(Err(_)) => -1,
                 Ok(Ok(b)) => proj::pack_move(b),
